@@ -60,6 +60,7 @@ type World struct {
 	SliceBound int
 	RandChoice bool
 	OpenStores map[string]bool
+	Evals      []NondetEntry // extra terms whose model value the scenario needs (table bases, predicates)
 }
 
 type lazyVal struct {
@@ -98,6 +99,7 @@ func (w *World) clone() *World {
 	}
 	n.EventLog = append([]*Term(nil), w.EventLog...)
 	n.WriteLog = append([]*Term(nil), w.WriteLog...)
+	n.Evals = append([]NondetEntry(nil), w.Evals...)
 	n.OpenStores = make(map[string]bool, len(w.OpenStores))
 	for k, v := range w.OpenStores {
 		n.OpenStores[k] = v
